@@ -26,7 +26,9 @@ def rename_case(rng):
         files, built = {}, []
         if rng.random() < 0.35:
             # a second class with the very same layout (same lines and columns) in another file
-            src = rng.choice(units)
+            # preferably a class that mentions the renamed name: then both files have sites at identical positions
+            mention = [x for x in units if ("'%s'" % old) in repr(x["members"]) or ('"%s"' % old) in repr(x["members"])]
+            src = rng.choice(mention) if mention and rng.random() < 0.7 else rng.choice(units)
             twin = json.loads(json.dumps(src))
             twin["name"] = src["name"][:-1] + ("Z" if not src["name"].endswith("Z") else "Y")
             if not any(x["name"] == twin["name"] and x["pkg"] == twin["pkg"] for x in units):
